@@ -811,6 +811,9 @@ impl SnapshotAccumulator {
 
         let mut hasher = Hasher::new();
 
+        // Domain separation: must match `snapshot::compute_state_root`.
+        hasher.update(crate::domain::STATE_ROOT_V1);
+
         // Root binding
         hasher.update(&root.warp_id.0);
         hasher.update(&root.local_id.0);
